@@ -4,6 +4,7 @@ import (
 	"context"
 	"fmt"
 	"testing"
+	"time"
 
 	"berty.tech/go-orbit-db/iface"
 	"pgregory.net/rapid"
@@ -37,17 +38,27 @@ func genC02(rt *rapid.T) CaseC02 {
 	}
 	m := rapid.IntRange(2, max).Draw(rt, "nacts")
 	for i := 0; i < m; i++ {
-		a := ActC02{Kind: rapid.SampledFrom([]string{"write", "write", "write", "cut", "heal", "deliver", "deliver", "deliver", "drop", "dup", "restart", "gate", "release", "release"}).Draw(rt, "kind"),
+		a := ActC02{Kind: rapid.SampledFrom([]string{"write", "write", "write", "cut", "heal", "deliver", "deliver", "deliver", "drop", "dup", "restart", "gate", "release", "release", "dropexchange", "dropexchange"}).Draw(rt, "kind"),
 			I: rapid.IntRange(0, c.N-1).Draw(rt, "i")}
 		switch a.Kind {
 		case "cut", "heal":
 			a.J = rapid.IntRange(0, c.N-1).Draw(rt, "j")
-		case "deliver", "drop", "dup", "release":
+		case "deliver", "drop", "dup", "release", "dropexchange":
 			a.K = rapid.IntRange(0, 30).Draw(rt, "k")
 		case "write":
 			a.K = rapid.IntRange(0, 3).Draw(rt, "key")
 		}
 		c.Acts = append(c.Acts, a)
+	}
+	if rapid.IntRange(0, 3).Draw(rt, "tail") == 0 {
+		// a write made behind a partition whose head exchange at the next heal is lost in both directions,
+		// followed by another cut: only the final reconnect phase can repair it
+		i := rapid.IntRange(0, c.N-1).Draw(rt, "ti")
+		j := (i + 1 + rapid.IntRange(0, c.N-2).Draw(rt, "tj")) % c.N
+		c.Acts = append(c.Acts,
+			ActC02{Kind: "cut", I: i, J: j}, ActC02{Kind: "write", I: i, K: 1}, ActC02{Kind: "heal", I: i, J: j},
+			ActC02{Kind: "dropexchange", I: i, K: 0}, ActC02{Kind: "dropexchange", I: i, K: 0}, ActC02{Kind: "dropexchange", I: i, K: 0},
+			ActC02{Kind: "cut", I: i, J: j})
 	}
 	return c
 }
@@ -73,7 +84,13 @@ func execC02(c CaseC02) *Outcome {
 	faulty := false
 	restarted := map[int]bool{}
 	gated := map[int]bool{}
+	settleStep := func() {
+		// let what the previous step set in motion come to a standstill, so that the set of held messages the
+		// next step picks from is a function of the history rather than of goroutine timing
+		w.WaitQuiescent(cl.Open(), &world.QuiesceOpts{AllowHeld: true, StableOnly: true}, 500*time.Millisecond)
+	}
 	for ai, a := range c.Acts {
+		settleStep()
 		i := a.I % c.N
 		switch a.Kind {
 		case "write":
@@ -126,6 +143,12 @@ func execC02(c CaseC02) *Outcome {
 			if m := w.TakeHeld(a.K); m != nil {
 				faulty = true
 			}
+		case "dropexchange":
+			// lose a head exchange (direct-channel payload), counted from the most recent one
+			if m := w.TakeHeldKind("direct", a.K%3); m != nil {
+				faulty = true
+				o.Labels = append(o.Labels, "head-exchange-lost")
+			}
 		case "dup":
 			if m := w.TakeHeld(a.K); m != nil {
 				w.Deliver(m)
@@ -154,6 +177,7 @@ func execC02(c CaseC02) *Outcome {
 			}
 		}
 	}
+	_ = settleStep
 	// final phase: no more writes, every pair reconnects (each side sees the other join),
 	// everything in flight is delivered, no further fault
 	w.AutoDeliver = true
